@@ -22,6 +22,9 @@ CHECKS={
  "C09":dict(cat="exploration",technique="runtime monitoring: independent parsers (acorn+V8, encoding/json, own XML tokenizer + encoding/xml, own HTML tag scanner, own CSS lexical scanner) applied to input and output of every accepted call, plus a second minifier pass",
    text="For each of the six languages the real minifier is run on frozen test-table inputs, repository corpora and benchmark documents (whole), generated inputs and seeded mutations/splices, under default and non-default options; whenever the independent parser accepts the input it must accept the output, and the minifier must accept its own output again.",
    note="Sampled; validity of HTML is tag-level (WHATWG tokenizer parse errors) plus inline-script validity; CSS validity is lexical and CSS inputs are not mutated; known defects are identified by witness, by failure signature (call site) or kept out of the domain by input guards.",ref="DESIGN.md §5 C09"),
+ "C12":dict(cat="exploration",technique="runtime monitoring: byte-equality against the plain call over exhaustive/seeded chunkings, offline checker over a logical-clock event log of the writer wrapper, HTTP header oracle, race-detector child, seeded schedule perturbation",
+   text="Reader, Writer, Bytes, String, ResponseWriter, Middleware and MiddlewareWithError are driven with every partition of short inputs (exhaustive up to a length bound) and seeded partitions of long ones, paced consumers, injected Gosched/sleep at the real suspension points and three GOMAXPROCS values; output bytes and errors must equal the plain call, the recorded event order must show all destination writes and the minifier's return before Close returns with the minifier's error, and the HTTP wrappers must choose the minifier by Content-Type then path extension and never send a stale Content-Length.",
+   note="Chunkings exhaustive only for short inputs; schedules are sampled (177+ distinct event interleavings per quick run); the parser dependency currently reads the whole stream first, so token-boundary refill bugs cannot exist today.",ref="DESIGN.md §5 C12"),
  "C14":dict(cat="fault_enumeration",technique="runtime monitoring: fault-injecting reader/writer doubles at every position with sentinel-error oracle, call-budget progress monitor, goroutine-dump blocked-forever detector, race-detector child",
    text="For every input of a pool (hand-written incl. truncations of each, generated, repository corpus) of all six media types, the reader is made to fail after every byte count (three fault shapes, three error kinds incl. errors wrapping io.EOF) and the writer from every write index on, through Minify, Reader, Writer and ResponseWriter; the call must return the injected error and must return at all.",
    note="Complete over fault positions of each observed input (sampled above 512); inputs themselves are a finite pool. Blocking is decided from unchanging goroutine dumps, never from elapsed time alone.",ref="DESIGN.md §5 C14"),
